@@ -355,6 +355,31 @@ def run_case(acc, c, roles=None):
         if r2.get("errorcode") != want_reply.get("errorcode"):
             return bad("followup-not-repaired:%s:got%s" % (fu.command, r2.get("errorcode")),
                        reply=r2, roles=got_roles[:10])
+        if c["variant"] == "reboot" and fu.name not in ("uiHeartbeat.hbmode",) and \
+                zlib.crc32(repr(sorted(c.items())).encode()) % 2 == 0:
+            # once more in the same manager: another link failure, the device again back in
+            # the bootloader - the second repair through the bootloader must work like the
+            # first (nothing used up or dropped by the earlier pass)
+            acc.count("second_repairs_through_the_bootloader")
+            dev.mode = 0x03
+            dev.adv_policy = {}
+            if fu.post:
+                fu.post(dev)
+            s.bus.arm({0: Fault("read_error")})
+            s.request(fu.request)
+            s.bus.arm({})
+            dev.pending_link = None
+            dev.adv_policy = {}
+            if fu.post:
+                fu.post(dev)
+            dev.mode = MODE_BOOTLOADER
+            dev.unlocked = False
+            r4, e4, _ = s.request(fu.request)
+            if e4 is not None:
+                return bad("exception-escaped-in-second-repair-through-bootloader:%s:%s" % (
+                    fu.command, type(e4).__name__), exc=repr(e4))
+            if not isinstance(r4, dict) or r4.get("errorcode") != want_reply.get("errorcode"):
+                return bad("second-repair-through-bootloader-failed:%s" % fu.command, reply=r4)
         if len(acc.samples) < 3:
             acc.sample({"case": c, "faulted_reply": reply, "followup_reply_code":
                         r2.get("errorcode"), "followup_events": [
